@@ -279,7 +279,7 @@ Definition wf_tensor (t : TensorP) : bool :=
     && valid_dtype (dflt 0 (t_dtype t))
     && negb (nonempty (t_strs t)) && empty_bytes (t_raw t) && negb (nonempty (t_other t))
   else if dflt 0 (t_dtype t) =? STRING_DT then
-    empty_bytes (t_raw t) && negb (nonempty (t_other t)) && negb (nonempty (t_ext t))
+    (dflt 0 (t_loc t) =? 0) && empty_bytes (t_raw t) && negb (nonempty (t_other t)) && negb (nonempty (t_ext t))
   else true.
 
 Definition wf_vinfo (vi : VInfoP) : bool := wf_type (vi_type vi) && wf_dict (vi_meta vi).
